@@ -197,32 +197,17 @@ func c17Analyse(src []byte) (*c17Zones, *ast.File, error) {
 }
 
 func evalC17(cs *c17Case) (sig, msg string, nontrivial bool, judged bool) {
-	p, err := ref.ParseSpec(&cs.Spec)
-	if err != nil {
-		return "", "", false, false
-	}
 	hostTree, err := parseTree([]byte(cs.File))
 	if err != nil {
 		return "", "", false, false
 	}
-	res := p.Apply(hostTree)
-	if res.Err != nil || res.Ambiguous || len(res.Sites) == 0 {
-		return "", "", false, false
-	}
 	r := run.API("p.patch", []byte(cs.Patch), "f.go", []byte(cs.File))
-	if !r.OK() {
+	if !r.OK() || string(r.Out) == cs.File {
 		return "", "", false, false
 	}
 	actual, err := parseTree(r.Out)
 	if err != nil {
 		return "", "", false, false
-	}
-	// Only judge comments when the code itself came out as the reference
-	// expects (C01-C05 judge the code).
-	if !ref.Equal(ref.StripImports(res.Expected), ref.StripImports(actual), ref.Output) {
-		if rt, err := ref.RoundTrip(ref.Resolve(res.Expected, actual, ref.Output)); err != nil || !ref.Equal(ref.StripImports(rt), ref.StripImports(actual), ref.Output) {
-			return "", "", false, false
-		}
 	}
 	zin, _, err := c17Analyse([]byte(cs.File))
 	if err != nil {
@@ -248,15 +233,20 @@ func evalC17(cs *c17Case) (sig, msg string, nontrivial bool, judged bool) {
 		}
 	}
 	// (2) untouched declarations keep their comments, in order
+	// A declaration in which nothing was rewritten is one whose code is the
+	// same before and after (decided on gopatch's own output, so that
+	// patches with several changes can be judged without a model).
 	hd := ref.StripImports(hostTree).Field("Decls")
-	ed := ref.StripImports(res.Expected).Field("Decls")
+	ed := ref.StripImports(actual).Field("Decls")
 	if len(zin.Decl) != len(zout.Decl) || len(hd.Kids) != len(zin.Decl) || len(ed.Kids) != len(hd.Kids) {
 		return "", "", false, judged // declaration patterns may change the count: correspondence by index is lost
 	}
 	untouched := make([]bool, len(hd.Kids))
 	touchedAny := false
 	for i := range hd.Kids {
-		untouched[i] = ref.Equal(ed.Kids[i], hd.Kids[i], ref.Output)
+		// exact comparison: a declaration that only gained redundant
+		// parentheses was rewritten nevertheless
+		untouched[i] = ref.Equal(hd.Kids[i], ed.Kids[i], ref.Exact)
 		if !untouched[i] {
 			touchedAny = true
 		}
@@ -306,6 +296,19 @@ func evalC17(cs *c17Case) (sig, msg string, nontrivial bool, judged bool) {
 	return "", "", nontrivial, judged
 }
 
+// Changes that rewrite the keyword, the parentheses or the grouping of value
+// and type declarations wherever they occur.
+var c17Extra = []string{
+	"@@\nvar n identifier\nvar v expression\n@@\n-const n = v\n+var n = v\n",
+	"@@\nvar n identifier\nvar v expression\n@@\n-var n = v\n+var n, _ = v, 0\n",
+	"@@\nvar n identifier\nvar v expression\n@@\n-const (\n-\tn = v\n-)\n+var (\n+\tn = v\n+)\n",
+	"@@\nvar n identifier\nvar v expression\n@@\n-var (\n-\tn = v\n-)\n+var n = v\n",
+	"@@\nvar n identifier\nvar t expression\n@@\n-type n t\n+type (\n+\tn t\n+)\n",
+	"@@\nvar n, m identifier\nvar v, w expression\n@@\n-const (\n-\tn = v\n-\tm = w\n-)\n+var (\n+\tn = v\n+\tm = w\n+)\n",
+	"@@\nvar f identifier\n@@\n-func f() {\n+func f(_ int) {\n \t...\n }\n",
+	"@@\nvar x expression\n@@\n-return x\n+return (x)\n",
+}
+
 var c17Opts = modelOpts{
 	Mine:         gen.MineOpts{MaxHoles: 2, MaxDots: 2},
 	MaxHostLines: 250,
@@ -333,11 +336,28 @@ func TestC17(t *testing.T) {
 			return
 		}
 		cs := &c17Case{Spec: mcs.Spec, Patch: mcs.Patch, File: string(fm)}
-		// A second change in the same patch file sometimes (comment bookkeeping across changes).
-		if rapid.IntRange(0, 3).Draw(rt, "second") == 0 {
-			// not modelled by the reference: only the global rule and the
-			// per-declaration rule for declarations neither change touches
-			// could be judged; keep single changes for the judged part.
+		// Further changes in the same patch file (comment bookkeeping is
+		// carried from one change to the next).
+		nMore := rapid.SampledFrom([]int{0, 0, 1, 1, 2}).Draw(rt, "moreChanges")
+		for k := 0; k < nMore; k++ {
+			switch rapid.IntRange(0, 3).Draw(rt, fmt.Sprintf("moreKind%d", k)) {
+			case 0:
+				fu := c09FollowUps(gen.Marker+"0", fmt.Sprintf("nxq%d", k))
+				cs.Patch += "\n" + fu[rapid.IntRange(0, len(fu)-1).Draw(rt, fmt.Sprintf("fu%d", k))]
+			case 1:
+				cs.Patch += "\n" + rapid.SampledFrom(c17Extra).Draw(rt, fmt.Sprintf("extra%d", k))
+			default:
+				o := c17Opts
+				o.FixedHost = mcs.HostName
+				o.MaxPlants, o.MaxMutants = 0, 0
+				if other, _ := genModelCase(rt, o); other != nil {
+					if rapid.Bool().Draw(rt, fmt.Sprintf("before%d", k)) {
+						cs.Patch = other.Patch + "\n" + cs.Patch
+					} else {
+						cs.Patch += "\n" + other.Patch
+					}
+				}
+			}
 		}
 		sig, msg, nontriv, judged := evalC17(cs)
 		if !judged {
